@@ -1,6 +1,7 @@
 """C13 - peer messages round-trip through the wire format and decoding is total (structural part: table agreement, TLV rules, varint boundaries)."""
 import re
 from engine import *
+import linforms
 import ordimpls
 import provenance
 import parsepos
@@ -214,10 +215,12 @@ def r13d(F):
 	gs = [Guard(br, c) for c in comparisons(br)]
 	n = 0
 	for g in gs:
-		if len(g.nf[0]) == 1 and g.nf[1] in ('Lt', 'Le') and g.nf[2] in (0xFD, 0x10000, 0x100000000, 0xFC, 0xFFFF, 0xFFFFFFFF):
+		if len(g.nf[0]) == 1 and g.nf[1] in ('Lt', 'Le', 'Ge', 'Gt') and g.nf[2] in (0xFD, 0x10000, 0x100000000, 0xFC, 0xFFFF, 0xFFFFFFFF):
 			okr = False
 			for d in g.decisions:
-				okr = tlvloop._reaches_construct(br, [e[1] for e in d.true_edges], 'DecodeError', 'InvalidValue') and not (br.reach([e[1] for e in d.true_edges], removed_blocks={d.b}) & set(ok_return_blocks(br)))
+				# `if x < T { Err } else { Ok }` and `if x >= T { Ok } else { Err }` are the same check: the rejecting side is the one on which x is below T
+				rej = d.true_edges if g.nf[1] in ('Lt', 'Le') else d.false_edges
+				okr = tlvloop._reaches_construct(br, [e[1] for e in rej], 'DecodeError', 'InvalidValue') and not (br.reach([e[1] for e in rej], removed_blocks={d.b}) & set(ok_return_blocks(br)))
 			n += 1
 			out.append(Result('13.d', okr, ('ok:' if okr else 'guard:') + 'non-minimal@%d' % g.nf[2], 'BigSize::read: a value below %d in the wider form yields InvalidValue and never Ok' % g.nf[2], 1, where=F.where(br.name, g.line)))
 	if n != 3:
@@ -463,3 +466,4 @@ RULES.append(('13.P', 'panic sites: no reviewed function that parses / handles u
 RULES.append(('13.G', 'guard census: no reviewed call of a workspace function and no reviewed mutation of a stored collection gained a controlling branch condition (an added `&& cond`, early return / continue, more specific match arm in front of an act); counts per call site, name free (rules/guards.py)', lambda F: guards.for_property(F, 'C13', '13.G')))
 RULES.append(('13.I', 'parse-position independence: in every function reading from a reader, no stream read is skipped under a condition computed from local state (self, another argument) while parsing goes on - the bytes a message decoder consumes depend on the message alone (rules/parsepos.py)', lambda F: parsepos.rule(F, '13.I', lambda n, r: re.search(r'ln/msgs\\.rs$|ln/wire\\.rs$|onion_message/|util/ser\\.rs$|ln/onion_utils\\.rs$|blinded_path/', r['file']) is not None and 'ser_macros' not in r['file'], 7, 30)))
 RULES.append(('13.N', 'arithmetic census: per reviewed function the set of operation kinds (group: add/sub, mul, div, rem, shift, bit, min, max, div_ceil ...; flavour: plain / checked / saturating / wrapping) keeps its kinds: no reviewed function lost or gained a kind of arithmetic altogether - a rounding direction (`/` for div_ceil), saturating for checked, min for max (rules/arith.py; counts and value arithmetic itself are not judged)', lambda F: arith.for_property(F, 'C13', '13.N')))
+RULES.append(('13.K', 'constant census of linear forms: every comparison (normalised to sum >= K over name-free atoms, a comparison and its negation being one form) and every maximal arithmetic expression of a reviewed function keeps its coefficients and its constant - a dropped or added `+ 1` / `- 1`, `<` for `<=` inside a computed bound, a scale factor applied twice or not at all, swapped operands of a comparison (rules/linforms.py; shapes that appear or disappear are not judged, the guard / arithmetic censuses judge those)', lambda F: linforms.for_property(F, 'C13', '13.K')))
